@@ -175,6 +175,13 @@ impl ColumnValues {
             // Typed numeric column has no string view
             return None;
         }
+        if self.typed_bool.is_some() {
+            // A typed bool column reads as the literals the query language uses for it, so that
+            // string conditions (b = true, b != false) see flushed rows like in-memory ones.
+            return self
+                .get_bool_at(index)
+                .map(|b| if b { "true" } else { "false" });
+        }
         let (start, len) = *self.ranges.get(index)?;
         let bytes = &self.block.bytes[start..start + len];
         // Values are UTF-8 encoded when written; if invalid, return None.
